@@ -9,7 +9,10 @@ import (
 )
 
 // addrs maps abstract address numbers to real "ip:port" strings (filled by setup()).
-var addrs [NAddr]string
+var addrs [NTok]string
+
+// unixPath: the socket file the tokens 8‥10 name (fresh for every case).
+var unixPath string
 
 // brokenHost: the host name whose stored certificate is unreadable in every storage the harness uses.
 const brokenHost = "broken.internal"
